@@ -5,21 +5,21 @@ CONSTANTS
   RecHdr = 1
   BatchHdr = 1
   Queues = {0, 1}
-  MaxOps = 4
+  MaxOps = 3
   MaxPost = 1
   MaxCrashes = 1
-  Policy = "do_nothing"
+  Policy = "on_delay_fsync"
   LossModels = {"process", "power"}
   GcAlwaysSyncs = TRUE
   OpenSizesLast = TRUE
-  PayLens = {2, 9}
-  BatchSizes = {1, 2}
+  PayLens = {9}
+  BatchSizes = {1}
   AllowExplicit = FALSE
   MaxDamage = 0
   DamageKinds = {}
   CrcQuarantinesBlock = FALSE
   MinOpsBeforeCrash = 0
-  WithPersistCalls = TRUE
+  WithPersistCalls = FALSE
   WithNoops = FALSE
 INIT MCInit
 NEXT MCNext
